@@ -528,7 +528,11 @@ class Runner:
 
     def deliver_to_dest(self, raw):
         w = self.w
-        pdu = codec.parse(raw)
+        try:
+            pdu = codec.parse(raw)
+        except Exception:  # noqa: BLE001  an unparsable PDU is a lost PDU
+            self.unparsable = getattr(self, "unparsable", 0) + 1
+            return 0
         tid = (pdu.source_entity_id.value, pdu.transaction_seq_num.value)
         d = w.dst
         if d.h.state.value == 0 and tid in self.dst_done_tids:
@@ -547,7 +551,11 @@ class Runner:
 
     def deliver_to_source(self, raw):
         w = self.w
-        pdu = codec.parse(raw)
+        try:
+            pdu = codec.parse(raw)
+        except Exception:  # noqa: BLE001
+            self.unparsable = getattr(self, "unparsable", 0) + 1
+            return 0
         tid = (pdu.source_entity_id.value, pdu.transaction_seq_num.value)
         s = w.src
         if s.h.state.value == 0:
